@@ -11,9 +11,10 @@ func init() {
 	families["C03"] = famC03
 	families["C18"] = famC18
 	rules["C01"] = "per generated document (scripted parser, all node kinds, namespaces declared/inherited/overridden, top-level comments/PIs): EVERY node as context x 13 axes x 12 node tests (enumerated), " +
-		"plus random multi-step paths with abbreviations (@ . .. // implicit child) and absolute paths nested in predicates and arguments; observable: list of result node paths (identity by Parent()/list membership, never Pos()) vs the extracted model; " +
+		"plus random multi-step paths with abbreviations (@ . .. // implicit child) and absolute paths nested in predicates and arguments, reverse-axis steps continued with //, " +
+		"and the node universe of each document (all namespace nodes, all attributes, all tree nodes, their unions and counts); observable: list of result node paths (identity by Parent()/list membership, never Pos()) vs the extracted model; " +
 		"non-trivial: non-empty result; distinct by (document, start node, expression text)"
-	rules["C02"] = "paths whose steps/filter expressions carry 1-3 predicates (integers in and out of range, k+0.5, NaN, last(), last()-k, position() op k, boolean, node-set, string, nested, absolute paths) from every 3rd node of each document; " +
+	rules["C02"] = "paths whose steps/filter expressions carry 1-3 predicates (integers in and out of range, k+0.5, NaN, last(), last()-k, position() op k, context-dependent numbers such as count(x), number(@*), position(), last()+1-position(), boolean, node-set, string, nested, absolute paths, filters over bound node-sets $v[k]) from every 3rd node of each document; " +
 		"filter expressions (E)[p], (E)[p]/s, $v/s, f()//s; metamorphic pairs P[n] vs P[position()=n], P[last()] vs P[position()=last()] on the implementation; non-trivial: result non-empty and smaller than the unfiltered step result"
 	rules["C03"] = "node-set valued expressions of every family (multi-context steps, //x/.., ancestor::* from siblings, attribute/namespace steps after reverse steps, unions); checked on the implementation's output directly " +
 		"(no duplicate paths, every path valid, strictly monotone in true document order, ascending when no reverse axis/for unions) and against the model; union laws A|B=B|A, (A|B)|C=A|(B|C), A|A=A, count(A|B)=count(A)+count(B)-|A and B| across separately executed queries; non-trivial: >= 2 nodes"
@@ -112,6 +113,30 @@ func famC01(rn *Runner) {
 				rn.CheckQuery(&q2, "abbreviated form equals its expansion", nonEmptyNodes)
 			}
 		}
+		// the whole node universe and its kinds: distinct nodes must stay distinct when sets are merged
+		dos := &Stp{Axis: "descendant-or-self", Test: NodeTest{Kind: "node"}, Abbrev: true}
+		allNs := &EPath{Abs: true, Steps: []*Stp{dos, {Axis: "namespace", Test: NodeTest{Kind: "node"}}}}
+		allAt := &EPath{Abs: true, Steps: []*Stp{dos, {Axis: "attribute", Test: NodeTest{Kind: "any"}, Abbrev: true}}}
+		allTree := &EPath{Abs: true, Steps: []*Stp{{Axis: "descendant-or-self", Test: NodeTest{Kind: "node"}}}}
+		allEl := &EPath{Abs: true, Steps: []*Stp{dos, {Axis: "child", Test: NodeTest{Kind: "any"}, Abbrev: true}}}
+		for _, e := range []Expr{allNs, allAt, allTree, bin("|", allNs, allEl), bin("|", allAt, allNs), bin("|", bin("|", allTree, allAt), allNs),
+			&EPath{Abs: true, Steps: []*Stp{dos, {Axis: "child", Test: NodeTest{Kind: "any"}, Abbrev: true}, {Axis: "namespace", Test: NodeTest{Kind: "any"}}}},
+			call("count", bin("|", bin("|", allTree, allAt), allNs))} {
+			q := &QCase{Doc: d, Start: Path{}, Env: env, E: e, Text: Render(e, RenderOpts{}), Family: "universe"}
+			rn.CheckQuery(q, "every node of the document, by kind and all together", func(string) bool { return true })
+		}
+		// a reverse-axis step that selects several nodes, continued with // (its input arrives in reverse document order)
+		for i := 0; i < rn.Scale(60, 200) && !rn.TooMany(); i++ {
+			rev := &Stp{Axis: pick(rn.R, []string{"ancestor", "ancestor-or-self", "preceding", "preceding-sibling"}), Test: pick(rn.R, []NodeTest{{Kind: "any"}, {Kind: "node"}})}
+			last := g.Step(0, 0)
+			last.Axis, last.Abbrev = "child", true
+			if last.Test.Kind == "text" || rn.R.Chance(1, 3) {
+				last.Test = NodeTest{Kind: pick(rn.R, []string{"any", "node"})}
+			}
+			e := &EPath{Steps: []*Stp{rev, dos, last}}
+			q := &QCase{Doc: d, Start: pick(rn.R, d.Paths), Env: env, E: e, Text: Render(e, RenderOpts{R: rn.R}), Family: "reverse-then-descendants"}
+			rn.CheckQuery(q, "E//x is E/descendant-or-self::node()/x whatever order E arrives in", twoNodes)
+		}
 		rn.DropDoc(d)
 	}
 }
@@ -176,6 +201,35 @@ func envWithNodeVars(rn *Runner, d *Doc) *Env {
 	return env
 }
 
+// envShuffled binds $u to 3-8 nodes in a random order (the first in document order is usually neither first nor last)
+// and $w to a selection in reverse document order.
+func envShuffled(rn *Runner, d *Doc) *Env {
+	env := envWithNodeVars(rn, d)
+	n := 3 + rn.R.Intn(6)
+	var us []Path
+	for i := 0; i < n && i < len(d.Paths); i++ {
+		us = append(us, pick(rn.R, d.Paths))
+	}
+	for i := len(us) - 1; i > 0; i-- {
+		j := rn.R.Intn(i + 1)
+		us[i], us[j] = us[j], us[i]
+	}
+	env.Vars = append(env.Vars, VarBind{"", "u", VarVal{Kind: "nodes", Nodes: us}})
+	return env
+}
+
+// unorderedOperands: node-set arguments whose stored order is not document order, and sets mixing the
+// attributes and namespace nodes of one element
+func unorderedOperands(rn *Runner) []Expr {
+	at := &EPath{Steps: []*Stp{{Axis: "attribute", Test: NodeTest{Kind: "any"}, Abbrev: true}}}
+	ns := &EPath{Steps: []*Stp{{Axis: "namespace", Test: NodeTest{Kind: "any"}}}}
+	anc := &EPath{Steps: []*Stp{{Axis: "ancestor-or-self", Test: NodeTest{Kind: "any"}}, {Axis: "attribute", Test: NodeTest{Kind: "any"}, Abbrev: true}}}
+	ch := &EPath{Steps: []*Stp{{Axis: "child", Test: NodeTest{Kind: "node"}}}}
+	return []Expr{v("u"), v("w"), bin("|", at, ns), bin("|", ns, at), bin("|", ch, bin("|", ns, at)), anc,
+		&EPath{Steps: []*Stp{{Axis: "preceding-sibling", Test: NodeTest{Kind: "node"}}}}, &EPath{Steps: []*Stp{{Axis: "preceding", Test: NodeTest{Kind: "any"}}}},
+		&EFilter{E: v("u"), Steps: []*Stp{{Axis: "self", Test: NodeTest{Kind: "node"}, Abbrev: true}}}}
+}
+
 func famC02(rn *Runner) {
 	ndocs := rn.Scale(12, 200)
 	for di := 0; di < ndocs && !rn.TooMany(); di++ {
@@ -186,10 +240,19 @@ func famC02(rn *Runner) {
 		for i := 0; i < n && !rn.TooMany(); i++ {
 			var e Expr
 			fam := "step-predicates"
-			switch rn.R.Intn(5) {
+			switch rn.R.Intn(6) {
 			case 0, 1:
 				p := g.Path(2, 7)
 				e = p
+			case 5:
+				// $w/step[$w[k]]: the bound node-set is read (and filtered) again while the step iterates over it
+				fam = "binding-reread"
+				name := pick(rn.R, []string{"v", "w", "w"})
+				st := &Stp{Axis: pick(rn.R, []string{"child", "child", "self", "descendant", "attribute", "parent"}), Test: NodeTest{Kind: "node"}, Preds: []Expr{g.VarFilterPred(name)}}
+				if st.Axis == "child" || st.Axis == "attribute" {
+					st.Test = NodeTest{Kind: "any"}
+				}
+				e = &EFilter{E: &EVar{RawQ{Local: name}}, Steps: []*Stp{st}}
 			case 2:
 				fam = "filter-expr"
 				f := &EFilter{E: g.NodeSet(1, 3)}
